@@ -378,3 +378,16 @@ func snapJSON(s *bug.Snapshot) map[string]any {
 }
 
 func sortStrings(l []string) { sort.Strings(l) }
+
+func opsOf1(op dag.Operation) []dag.Operation { return []dag.Operation{op} }
+
+// newOpGenWith prepares a generator that knows the operations of an existing bug.
+func newOpGenWith(r *rng, authors []identity.Interface, b *bug.Bug) *opGen {
+	g := newOpGen(r, authors)
+	for _, o := range b.Operations() {
+		_, isC := o.(*bug.AddCommentOperation)
+		_, isCr := o.(*bug.CreateOperation)
+		g.record(o, isC || isCr)
+	}
+	return g
+}
